@@ -1,7 +1,8 @@
 (* C03 driver.
    E <kind> <op>...   op = A:<parent>:<id>:<s,s,..> | G:<parent>:<id>:<s> | L:<node>:<eq>:<ownid>:<ownsize>:<ids|->:<ids|->
    W <kind> <eq> <ngroups> <nattrs> <na> <nb>
-   argv 2,3 (optional): clips fresh  (the discipline read from the source; default 1 1) *)
+   argv 2,3 (optional): clips fresh, one character per handler kind (json text nano), the discipline read
+   from the source by gen/loggerfacts; default 111 111 *)
 let ints s = if s = "-" || s = "" then [] else List.map int_of_string (String.split_on_char ',' s)
 let parse_op (s : string) : cop =
   match String.split_on_char ':' s with
@@ -13,15 +14,15 @@ let parse_op (s : string) : cop =
   | _ -> failwith ("bad op " ^ s)
 
 let () =
-  let clip = if Array.length Sys.argv > 2 then Sys.argv.(2) = "1" else true in
-  let fresh = if Array.length Sys.argv > 3 then Sys.argv.(3) = "1" else true in
+  let flag a k = if Array.length Sys.argv > a && String.length Sys.argv.(a) > k then Sys.argv.(a).[k] = '1' else true in
   let cases = ref 0 and specfail = ref 0 and mismatch = ref 0 and noclip = ref 0 and logs = ref 0 and trees = ref 0 and cs = ref 0 in
   iter_lines Sys.argv.(1) (fun line ->
     match split_ws line with
     | "E" :: kind :: ops ->
         incr cases; incr trees;
         (try
-          let v = check_case (nat_of_int (int_of_string kind)) clip fresh (List.map parse_op ops) in
+          let k = int_of_string kind in
+          let v = check_case (nat_of_int k) (flag 2 k) (flag 3 k) (List.map parse_op ops) in
           logs := !logs + int_of_nat v.nlogs;
           if v.noclip_viol then incr noclip;
           if not v.spec_ok then begin incr specfail; Printf.printf "SPECFAIL %s\n" line end
